@@ -94,3 +94,8 @@ impl Unit {
 /// private module, so its HTTP hook is re-exported here for `crate::verif`.
 #[cfg(feature = "verif-hooks")]
 pub use mrt_file_in::verif_hooks_http as verif_mrt_file_in_http;
+
+/// Verification hooks (feature `verif-hooks`, add-only): the real
+/// mrt-file-in `process_file` and queue runner for `crate::verif` users.
+#[cfg(feature = "verif-hooks")]
+pub use mrt_file_in::unit::verif_hooks_c16 as verif_mrt_file_in_c16;
